@@ -3,8 +3,10 @@ import Std.Data.HashMap
 import WM.Model.Varint
 import WM.Model.IdSets
 import WM.Spec.IdSet
+import WM.Spec.IdSetPool
 import WM.Model.NumLists
 import WM.Model.HashFile
+import WM.Model.HashBytes
 import WM.Model.Sort
 import WM.Model.Compound
 import WM.Model.Base85
@@ -197,6 +199,83 @@ def specOp (s : List Nat) : SExp → Option (List Nat × String)
   | .list [.atom "after", i] => i.int? >>= fun i => some (s, showOptNat (after s i))
   | _ => none
 
+/-! ### programs over a pool of registers (`WM.IdSets.Pool`, spec `WM.Spec.IdSet.SPool`) -/
+
+def binop? : SExp → Option BinOp
+  | .atom "union" => some .union
+  | .atom "inter" => some .inter
+  | .atom "diff" => some .diff
+  | _ => none
+
+/-- a register literal: `(bits hex)` = `BitSet.from_bytes`, `(src (l) sized size)` = `BitSet(l, size)`,
+    `(sorted (l))` = `SortedIntSet(l)` -/
+def reg? : SExp → Option Inner
+  | .list [.atom "bits", .atom hex] => (hexBytes? hex).map Inner.bits
+  | .list [.atom "src", l, sized, size] =>
+    match l.natList?, sized.bool?, size.nat? with
+    | some l, some sized, some size => some (Inner.bits (ofSource l sized size))
+    | _, _, _ => none
+  | .list [.atom "sorted", l] => l.natList? >>= fun xs => some (Inner.sorted (sisOfSource xs))
+  | _ => none
+
+/-- the state-changing pool ops, as `PoolOp` plus the register whose value is the observation -/
+def poolOp? : SExp → Option (PoolOp × Nat)
+  | .list [.atom "bin", op, dst, a, b] => do
+    some (.bin (← binop? op) (← dst.nat?) (← a.nat?) (← b.nat?), ← dst.nat?)
+  | .list [.atom "upd", op, a, b] => do some (.upd (← binop? op) (← a.nat?) (← b.nat?), ← a.nat?)
+  | .list [.atom "inv", dst, a, n] => do some (.invert (← dst.nat?) (← a.nat?) (← n.nat?), ← dst.nat?)
+  | .list [.atom "cp", dst, a] => do some (.copy (← dst.nat?) (← a.nat?), ← dst.nat?)
+  | .list [.atom "load", dst, r] => do some (.load (← dst.nat?) (← reg? r), ← dst.nat?)
+  | _ => none
+
+/-- one op of a pool program: a `PoolOp` through `Pool.step`, or `(on a <single-set op>)` through
+    the single-set models. -/
+def poolStep (p : Pool) (e : SExp) : Option (Pool × String) :=
+  match e with
+  | .list [.atom "on", a, op] => do
+    let a ← a.nat?
+    match p[a]? with
+    | some (.bits b) => (bitsOp b op).map fun (b', obs) => (p.set a (.bits b'), obs)
+    | some (.sorted d) => (sisOp d op).map fun (d', obs) => (p.set a (.sorted d'), obs)
+    | none => some (p, "err-index")
+  | .list [.atom "disk", a, npre] => do
+    -- `to_disk` after `npre` foreign bytes, then `OnDiskBitSet(file, npre, bytecount)` / `from_disk`
+    let a ← a.nat?
+    let npre ← npre.nat?
+    match p[a]? with
+    | some (.bits b) => some (p, showNatList (onDisk (List.replicate npre 7 ++ b ++ [1, 2]) npre b.length))
+    | _ => some (p, "err-index")
+  | e => do
+    let (op, r) ← poolOp? e
+    match p.step op with
+    | .ok p' => some (p', match p'[r]? with | some x => showInner x | none => "err-index")
+    | .error err => some (p, showErr err)
+
+open WM.Spec.IdSet in
+def spoolStep (p : SPool) (e : SExp) : Option (SPool × String) :=
+  match e with
+  | .list [.atom "on", a, op] => do
+    let a ← a.nat?
+    match p[a]? with
+    | some s => (specOp s op).map fun (s', obs) => (p.set a s', obs)
+    | none => some (p, "err-index")
+  | .list [.atom "disk", a, _] => do
+    let a ← a.nat?
+    match p[a]? with
+    | some s => some (p, showNatList s)
+    | none => some (p, "err-index")
+  | .list [.atom "load", dst, l] => do
+    let dst ← dst.nat?
+    let l ← l.natList?
+    match p.step (.load dst (.sorted (ofList l))) with
+    | some p' => some (p', match p'[dst]? with | some x => showNatList x | none => "err-index")
+    | none => some (p, "err-index")
+  | e => do
+    let (op, r) ← poolOp? e
+    match p.step op with
+    | some p' => some (p', match p'[r]? with | some x => showNatList x | none => "err-index")
+    | none => some (p, "err-index")
+
 def idset : List SExp → String
   -- BitSet(source, size): `(src (list) sized size)`; BitSet.from_bytes: `(bytes hex)`
   | .atom "bitset" :: .list [.atom "src", l, sized, size] :: ops =>
@@ -225,6 +304,14 @@ def idset : List SExp → String
       | _ => none
     match ps with
     | some ps => reply (runOps multiOp ⟨ps.map (·.1), ps.map (·.2)⟩ ops [])
+    | none => "bad-op"
+  | .atom "pool" :: .list regs :: ops =>
+    match regs.mapM reg? with
+    | some p => reply (runOps poolStep p ops [])
+    | none => "bad-op"
+  | .atom "spool" :: .list regs :: ops =>
+    match regs.mapM (·.natList?) with
+    | some p => reply (runOps spoolStep (p.map WM.Spec.IdSet.ofList) ops [])
     | none => "bad-op"
   | .atom "spec" :: l :: ops =>
     match l.natList? with
@@ -331,7 +418,104 @@ def hashfile : List SExp → Option String
       some s!"{poss} {f.endofdata} ({" ".intercalate tabs}) ({" ".intercalate looks}) {showTC f.indexTC} {showHex f.indexBytes} ({" ".intercalate cl}) {its}"
   | _ => none
 
+/-! ## byte level: `StructFile` numbers/strings and the hash file as bytes -/
+open WM.StructFile in
+def structOps : List SExp → Option String
+  | [.atom "pack", tc, n] => do
+    let tc ← tc? tc
+    let n ← n.int?
+    some (showE showHex (pack tc n))
+  | [.atom "unpack", tc, .atom hex] => do
+    let tc ← tc? tc
+    let bs ← hexBytes? hex
+    some (showE toString (unpack tc bs))
+  | [.atom "read", tc, .atom hex] => do
+    let tc ← tc? tc
+    let bs ← hexBytes? hex
+    some (showE (fun (p : Int × Bytes) => s!"{p.1} {showHex p.2}") (readNum tc bs))
+  | [.atom "get", tc, .atom hex, pos] => do
+    let tc ← tc? tc
+    let bs ← hexBytes? hex
+    let pos ← pos.nat?
+    some (showE toString (getNum tc bs pos))
+  | [.atom "string", .atom hex, .atom rest] => do
+    let s ← hexBytes? hex
+    let rest ← hexBytes? rest
+    let w := writeString s
+    some s!"{showHex w} {match readString (w ++ rest) with
+      | some (a, b) => s!"{showHex a} {showHex b}"
+      | none => "err"}"
+  | [.atom "readstring", .atom hex] => do
+    let bs ← hexBytes? hex
+    some (match readString bs with
+      | some (a, b) => s!"{showHex a} {showHex b}"
+      | none => "err")
+  | _ => none
+
+open WM.HashFile WM.HashBytes in
+/-- `hashbytes <ordered> <hashtype> <prehex> <extrashex> <realfilehex> ((keyhex hash valhex) ...) ((lookupkeyhex hash) ...)`:
+    the bytes the model writes, and the model reader (`openReader`, `allBytes`, `items`) run on the
+    bytes of the *real* file. -/
+def hashbytes : List SExp → Option String
+  | [ordered, hashtype, .atom pre, .atom extras, .atom real, .list kvs, .list lookups] => do
+    let ordered ← ordered.bool?
+    let hashtype ← hashtype.nat?
+    let pre ← hexBytes? pre
+    let extras ← hexBytes? extras
+    let real ← hexBytes? real
+    let kvs ← kvs.mapM fun e => match e with
+      | .list [.atom k, h, .atom v] => do some (← hexBytes? k, ← h.nat?, ← hexBytes? v)
+      | _ => none
+    let lookups ← lookups.mapM fun e => match e with
+      | .list [.atom k, h] => do some (← hexBytes? k, ← h.nat?)
+      | _ => none
+    let table : List (Key × Nat) := kvs.map (fun (k, h, _) => (k, h)) ++ lookups
+    let hm : Std.HashMap Key Nat := table.foldl (fun m (k, h) => if m.contains k then m else m.insert k h) {}
+    let hash : Key → Nat := fun k => (hm.get? k).getD 0
+    let pairs : List (Key × WM.StructFile.Bytes) := kvs.map fun (k, _, v) => (k, v)
+    let so := pre.length
+    let magic := [72, 83, 72, 51]
+    let written := match (if ordered then buildOrderedE hash List.length so pairs else buildE hash List.length so pairs) with
+      | .error e => showErr e
+      | .ok f => showHex (fileBytes magic hashtype extras pre f)
+    let rd := match openReader magic real so (real.length - so) with
+      | .error e => showErr e
+      | .ok r =>
+        let dir := (List.range 256).filterMap fun b => match r.tables[b]? with
+          | some (pn : Nat × Nat) => if pn.2 = 0 then none else some s!"({b} {pn.1} {pn.2})"
+          | none => some s!"({b} missing)"
+        let looks := lookups.map fun (kh : Key × Nat) => showE (showList showHex) (allBytes hash r kh.1)
+        let its := showE (showList fun (kv : WM.StructFile.Bytes × WM.StructFile.Bytes) => s!"({showHex kv.1} {showHex kv.2})") (items r)
+        s!"({r.hashtype} {r.startofdata} {r.endofdata} {r.expos} {r.exlen}) ({" ".intercalate dir}) ({" ".intercalate looks}) {its}"
+    some s!"{written} {rd}"
+  | _ => none
+
 /-! ## external sort, compound files, base 85 -/
+/-- `subfile <parenthex> <offset> <length> ((read n) | (readall) | (seek where whence) | (tell) | (chunks n)) ...` -/
+def subfileRun (parent : List Nat) : WM.Compound.SubFile → List SExp → List String → Option (List String)
+  | _, [], acc => some acc.reverse
+  | s, op :: ops, acc =>
+    match op with
+    | .list [.atom "read", n] => n.int? >>= fun n =>
+      match s.read parent (some n) with
+      | some (d, s') => subfileRun parent s' ops (showHex d :: acc)
+      | none => subfileRun parent s ops ("err" :: acc)
+    | .list [.atom "readall"] =>
+      match s.read parent none with
+      | some (d, s') => subfileRun parent s' ops (showHex d :: acc)
+      | none => subfileRun parent s ops ("err" :: acc)
+    | .list [.atom "seek", w, wh] => w.int? >>= fun w => wh.nat? >>= fun wh =>
+      match s.seek w wh with
+      | some s' => subfileRun parent s' ops ("ok" :: acc)
+      | none => subfileRun parent s ops ("err" :: acc)
+    | .list [.atom "tell"] => subfileRun parent s ops (toString s.tell :: acc)
+    | .list [.atom "chunks", n] => n.int? >>= fun n =>
+      -- fuel: one iteration per byte left (also after a seek to before the member) plus the empty read
+      match WM.Compound.SubFile.readChunks parent n s (((s.length : Int) - s.pos).toNat + 2) with
+      | some (d, s') => subfileRun parent s' ops (showHex d :: acc)
+      | none => subfileRun parent s ops ("err" :: acc)
+    | _ => none
+
 def misc : List SExp → Option String
   | [.atom "sort", ms, mf, l] => do
     let ms ← ms.nat?
@@ -361,6 +545,11 @@ def misc : List SExp → Option String
       s!"({n} {" ".intercalate bl})"
     let rb := w.readback.map fun (n, d) => s!"({n} {showHex d})"
     some s!"({" ".intercalate blocks}) ({" ".intercalate rb}) {w.temp.length}"
+  | [.atom "subfile", .atom hex, off, len, .list ops] => do
+    let parent ← hexBytes? hex
+    let off ← off.nat?
+    let len ← len.nat?
+    (subfileRun parent ⟨off, len, 0⟩ ops []).map fun obs => "(" ++ " ".intercalate obs ++ ")"
   | [.atom "b85", x, islong] => do
     let x ← x.nat?
     let il ← islong.bool?
@@ -392,6 +581,8 @@ def handle : List SExp → String
   | .atom "idset" :: rest => idset rest
   | .atom "num" :: rest => (numlists rest).getD "bad-op"
   | .atom "hash" :: rest => (hashfile rest).getD "bad-op"
+  | .atom "struct" :: rest => (structOps rest).getD "bad-op"
+  | .atom "hashbytes" :: rest => (hashbytes rest).getD "bad-op"
   | .atom "misc" :: rest => (misc rest).getD "bad-op"
   | _ => "bad-op"
 
